@@ -54,6 +54,12 @@ func (t *HTag) BeforeCreate(tx *gorm.DB) error {
 // keptCols06: the caller's own list of columns, with room behind its two elements
 var keptCols06 = append(make([]string, 0, 8), "c1", "c2")
 
+// rawSub06: a raw sub-query the caller keeps in a variable and hands to several chains as a value (made anew for
+// every history and for every isolated replay)
+var rawSub06 *gorm.DB
+
+func newRawSub06(root *gorm.DB) { rawSub06 = root.Raw("SELECT c3 FROM tags WHERE c2 > ?", 15) }
+
 // HOwner and its relations: what Select(<relations>).Delete walks.
 type HOwner struct {
 	ID   int64 `gorm:"primaryKey"`
@@ -85,6 +91,12 @@ func genStep(seed uint64, root *gorm.DB) step06 {
 	r := g.r
 	// the low bits of the seed carry the method form chosen from the history's palette
 	switch k := int(seed % 32); {
+	case k == 5:
+		// the kept raw sub-query as a value, behind a bound value of the chain's own
+		l := g.newLeaf("c2", "int")
+		return step06{desc: `Where("c2 > ? AND c3 IN (?)", v, keptRawSubQuery)`, apply: func(db *gorm.DB) *gorm.DB {
+			return db.Where("c2 > ? AND c3 IN (?)", l.val, rawSub06)
+		}}
 	case k < 6:
 		c := g.simpleCond(root, 0)
 		op := core.Pick(r, []string{"Where", "Where", "Or", "Not"})
@@ -363,6 +375,7 @@ func replay06(path []pel, finSeed uint64) (string, string) {
 	h := open06()
 	defer h.Close()
 	root := h.DB
+	newRawSub06(root)
 	db := root
 	var descs []string
 	var txs []*gorm.DB
@@ -400,6 +413,7 @@ func run06(c *core.Ctx) {
 	h := open06()
 	defer h.Close()
 	root := h.DB
+	newRawSub06(root)
 	nodes := []*node06{{db: root}}
 	type chain struct {
 		db   *gorm.DB
